@@ -1116,6 +1116,43 @@ def run_case_svg(case):
     if not X.all_chars(s):
         return [], h64(doc), 'ok'
     bad = []
+    # a caller that passes one attribute dictionary to every element it writes gets the document it would get with a fresh
+    # copy each time, and its dictionary back as it was
+    pts2 = [Coord.Pt(Coord.Dim(7, 'px'), Coord.Dim(8, 'px')), Coord.Pt(Coord.Dim(9, 'px'), Coord.Dim(10, 'px')), Coord.Pt(Coord.Dim(11, 'px'), Coord.Dim(12, 'px'))]
+
+    def shared_doc(share):
+        o = io.StringIO()
+        mine = dict(attrs)
+        a = (lambda: mine) if share else (lambda: dict(attrs))
+        with SVGWriter.SVGWriter(o, Coord.Box(dim(8.5), dim(11))) as w:
+            with SVGWriter.SVGPolyline(w, pts, a()):
+                pass
+            with SVGWriter.SVGPolyline(w, pts2, a()):
+                pass
+            with SVGWriter.SVGLine(w, pt, Coord.Pt(dim(2), dim(3)), a()):
+                pass
+            with SVGWriter.SVGPolygon(w, pts2, a()):
+                pass
+            with SVGWriter.SVGRect(w, pt, box, a()):
+                pass
+            with SVGWriter.SVGCircle(w, pt, dim(0.5), a()):
+                pass
+            with SVGWriter.SVGText(w, pt, s, 12, a()):
+                w.characters(s)
+            with SVGWriter.SVGGroup(w, a()):
+                with SVGWriter.SVGElipse(w, pt, dim(0.5), dim(0.25), a()):
+                    pass
+        return o.getvalue(), mine
+    try:
+        d_fresh, _ = shared_doc(False)
+        d_shared, mine = shared_doc(True)
+    except Exception as err:  # noqa
+        return [({'kind': 'writer_raises', 'exc': type(err).__name__, 'op': 'svg_shared_attrs', 'writer': 'SVGWriter'},
+                 'SVGWriter: %s: %s' % (type(err).__name__, err))], h64(('raise', type(err).__name__)), 'raises'
+    if d_shared != d_fresh or mine != attrs:
+        bad.append(({'kind': 'svg_attributes_depend_on_earlier_elements', 'writer': 'SVGWriter'},
+                    'one attribute dictionary %r passed to every element: it comes back as %r and the document differs from the one '
+                    'written with a fresh copy per element:\n%s\n-- fresh copies:\n%s' % (attrs, mine, d_shared[-700:], d_fresh[-700:])))
     root = pr.root
     shapes = [e.name for e in root.iter()]
     if shapes != ['svg', 'desc'] + SVG_SHAPES + ['text', 'text', 'text']:
